@@ -135,27 +135,19 @@ func (c *cfacts) writerFacts() {
 		bodyless = k
 	}
 	c.add("C13", "writerBodylessMethod", "the method for which the body is NOT forwarded: the constant `w.method` / `method` is compared with in "+rel, bodyless)
-	// func (w *responseWriter) WriteHeader(s int) { w.writeHeaderOnce.Do(func() { … }) } — what serialises the commit
+	// what serialises the commit: the status is forwarded to the underlying writer (`….ResponseWriter.WriteHeader(…)`)
+	// only inside a function run by `X.Do(…)`, X a field of the writer — read semantically: the forwarding call sits in
+	// the func literal given to Do, or in a method that is only ever run through such a Do (given to it as a method
+	// value, or called inside the literal). Code before or after the Do in WriteHeader (a fast path that returns when
+	// the response is already written) does not change the answer.
 	where = rel + " (*responseWriter).WriteHeader"
-	fd := c.funcIn(rel, "responseWriter", "WriteHeader")
-	guard := "none"
-	if len(fd.Body.List) == 1 {
-		if es, ok := fd.Body.List[0].(*ast.ExprStmt); ok {
-			if ce, ok := es.X.(*ast.CallExpr); ok && len(ce.Args) == 1 {
-				if sel, ok := ce.Fun.(*ast.SelectorExpr); ok && sel.Sel.Name == "Do" {
-					if _, isLit := ce.Args[0].(*ast.FuncLit); isLit {
-						guard = c.fieldType(rel, "responseWriter", exprText(sel.X), where)
-					}
-				}
-			}
-		}
-	}
-	c.add("C13", "writerCommitGuard", "the type of the field whose `.Do(func(){…})` is the whole body of "+where+
-		" (\"none\" if the body is anything else): what makes a second, possibly concurrent, commit a no-op", leanString(guard))
+	guard := c.commitGuard(rel, where)
+	c.add("C13", "writerCommitGuard", "the type of the field X such that the status is forwarded to the underlying writer only inside a function run by `X.Do(…)` ("+where+
+		"; \"none\" if some forwarding call is not under such a Do): what makes a second, possibly concurrent, commit a no-op", leanString(guard))
 
 	// return w.Status() != 0
 	where = rel + " (*responseWriter).Written"
-	fd = c.funcIn(rel, "responseWriter", "Written")
+	fd := c.funcIn(rel, "responseWriter", "Written")
 	if len(fd.Body.List) == 1 {
 		if rs, ok := fd.Body.List[0].(*ast.ReturnStmt); ok && len(rs.Results) == 1 {
 			c.add("C13", "writerUnwrittenStatus", "the status that means \"nothing sent\": `return w.Status() != …` in "+where,
@@ -223,4 +215,119 @@ func (c *cfacts) fieldType(rel, structName, selText, where string) string {
 	}
 	c.fail("%s: field %s of %s not found", where, name, structName)
 	return "none"
+}
+
+// commitGuard: see the comment at its use. Returns the type of the guarding field, "none" when a forwarding call is
+// reachable without passing a Do, or when there is no forwarding call at all.
+func (c *cfacts) commitGuard(rel, where string) string {
+	file := c.file(rel)
+	// every `<recv>.ResponseWriter.WriteHeader(…)` with the function declaration and the chain of nodes around it
+	type site struct {
+		fn    *ast.FuncDecl
+		stack []ast.Node
+	}
+	var sites []site
+	for _, d := range file.Decls {
+		fd, ok := d.(*ast.FuncDecl)
+		if !ok || fd.Body == nil {
+			continue
+		}
+		var stack []ast.Node
+		ast.Inspect(fd.Body, func(n ast.Node) bool {
+			if n == nil {
+				stack = stack[:len(stack)-1]
+				return true
+			}
+			stack = append(stack, n)
+			if ce, ok := n.(*ast.CallExpr); ok {
+				if sel, ok := ce.Fun.(*ast.SelectorExpr); ok && sel.Sel.Name == "WriteHeader" && strings.HasSuffix(exprText(sel.X), ".ResponseWriter") {
+					sites = append(sites, site{fd, append([]ast.Node(nil), stack...)})
+				}
+			}
+			return true
+		})
+	}
+	if len(sites) == 0 {
+		return "none"
+	}
+	// the Do call whose func literal encloses the innermost literal of a stack, if any
+	doAround := func(stack []ast.Node) string {
+		for i := len(stack) - 1; i > 0; i-- {
+			if _, isLit := stack[i].(*ast.FuncLit); !isLit {
+				continue
+			}
+			if ce, ok := stack[i-1].(*ast.CallExpr); ok && len(ce.Args) == 1 && ce.Args[0] == stack[i] {
+				if sel, ok := ce.Fun.(*ast.SelectorExpr); ok && sel.Sel.Name == "Do" {
+					return exprText(sel.X)
+				}
+			}
+			return "" // inside some other literal: not a Do
+		}
+		return ""
+	}
+	// how a method of the writer is used in the file: always under a Do (as its argument or inside its literal)?
+	var guardOfMethod func(name string, depth int) string
+	guardOfMethod = func(name string, depth int) string {
+		if depth > 3 {
+			return ""
+		}
+		res := ""
+		uses := 0
+		okAll := true
+		for _, d := range file.Decls {
+			fd, ok := d.(*ast.FuncDecl)
+			if !ok || fd.Body == nil {
+				continue
+			}
+			var stack []ast.Node
+			ast.Inspect(fd.Body, func(n ast.Node) bool {
+				if n == nil {
+					stack = stack[:len(stack)-1]
+					return true
+				}
+				stack = append(stack, n)
+				sel, ok := n.(*ast.SelectorExpr)
+				if !ok || sel.Sel.Name != name || len(stack) < 2 {
+					return true
+				}
+				uses++
+				parent := stack[len(stack)-2]
+				g := ""
+				if ce, ok := parent.(*ast.CallExpr); ok {
+					if ce.Fun == ast.Expr(sel) {
+						// a call of the method: under a Do literal here, or in a method that is itself always guarded
+						g = doAround(stack)
+						if g == "" && fd.Name.Name != "WriteHeader" {
+							g = guardOfMethod(fd.Name.Name, depth+1)
+						}
+					} else if len(ce.Args) == 1 && ce.Args[0] == ast.Expr(sel) {
+						if s2, ok := ce.Fun.(*ast.SelectorExpr); ok && s2.Sel.Name == "Do" {
+							g = exprText(s2.X) // X.Do(w.method)
+						}
+					}
+				}
+				if g == "" || (res != "" && g != res) {
+					okAll = false
+				}
+				res = g
+				return true
+			})
+		}
+		if uses == 0 || !okAll {
+			return ""
+		}
+		return res
+	}
+	guardExpr := ""
+	for _, st := range sites {
+		g := doAround(st.stack)
+		if g == "" && st.fn.Name.Name != "WriteHeader" {
+			g = guardOfMethod(st.fn.Name.Name, 0)
+		}
+		if g == "" || (guardExpr != "" && g != guardExpr) {
+			return "none"
+		}
+		guardExpr = g
+	}
+	return c.fieldType(rel, "responseWriter", guardExpr, where)
 }
